@@ -4,7 +4,7 @@ NEXT GStop
 INVARIANT Emit
 CHECK_DEADLOCK FALSE
 CONSTANTS
- Fix = {}
+ Fix = {"mergeToken", "cloneTransport"}
  MGroup = {}
  MVals = 2
  MValsB = 2
